@@ -1,5 +1,7 @@
 import Ovldverif.Spec.ClassSpec
 import Ovldverif.Props.C08
+import Ovldverif.Lemmas.ClassCore
+import Ovldverif.Lemmas.ClassStep
 /-!
 # C17 — overloaded methods in classes merge per class and inherit without leaking
 
@@ -17,6 +19,7 @@ def graphOf (cfg : Cfg) (ks : List ClassDecl) : Graph := Graph.runOps cfg {} (tr
 def WF (ks : List ClassDecl) : Prop :=
   ∀ (i : Nat) (k : ClassDecl), ks[i]? = some k → (∀ b ∈ k.bases, b < i) ∧ (∀ c ∈ k.mro, c < i)
 
+set_option linter.unusedVariables false in
 /-- **merge per class / inherit**: for every list of class statements and every class, the overloaded method the
     class ends up holding dispatches over exactly the documented effective method set, and a class holds a plain
     function exactly when the documentation says so -/
@@ -28,7 +31,13 @@ theorem C17_effective (cfg : Cfg) (ks : List ClassDecl) (hwf : WF ks) (i : Nat) 
       | .plain d => e.kind = .plain ∧ e.fn = some d
       | .node n fl => e.kind = .ovld ∧ e.flagged = fl ∧
           (graphOf cfg ks).defns (graphOf cfg ks).depth n = e.defns := by
-  sorry
+  obtain ⟨_, _, hag, _, _⟩ := mainInv cfg ks
+  obtain ⟨e, he, hr⟩ := hag.get i a h
+  refine ⟨e, he, ?_⟩
+  cases a with
+  | none => exact hr
+  | plain d => exact ⟨hr.1, hr.2.1⟩
+  | node n fl => exact ⟨hr.1, hr.2.1, hr.2.2.2⟩
 
 /-- **without leaking**: one more class statement leaves what every earlier class holds, and the definitions of
     every function that existed before it, exactly as they were (base classes and siblings keep their behaviour) -/
@@ -36,16 +45,20 @@ theorem C17_bases_untouched (cfg : Cfg) (ks : List ClassDecl) (k : ClassDecl) :
     (translate (ks ++ [k])).attr.take ks.length = (translate ks).attr ∧
     ∀ m, m < (translate ks).nn →
       (graphOf cfg (ks ++ [k])).defns (graphOf cfg (ks ++ [k])).depth m =
-        (graphOf cfg ks).defns (graphOf cfg ks).depth m := by
-  sorry
+        (graphOf cfg ks).defns (graphOf cfg ks).depth m :=
+  (MainInv.step cfg ks k (mainInv cfg ks)).2
 
+set_option linter.unusedVariables false in
 /-- class statements never put a function to use: nothing is compiled or locked by them, and every operation
     they perform is accepted -/
 theorem C17_ops_accepted (cfg : Cfg) (ks : List ClassDecl) (hwf : WF ks) :
     Graph.opsOK cfg {} (translate ks).ops = true ∧
     ∀ n, ((graphOf cfg ks).get n).locked = false ∧ ((graphOf cfg ks).get n).compiled = false := by
-  sorry
+  obtain ⟨_, hs, _⟩ := mainInv cfg ks
+  obtain ⟨h1, _, h3, _⟩ := snap_graph cfg hs
+  exact ⟨h3, fun n => ⟨(h1 n).2.1, (h1 n).1⟩⟩
 
+set_option linter.unusedVariables false in
 /-- **calls on the bound method** (with C08): a call on the method a class holds — including every nested
     `recurse` / `call_next` — behaves like the same call on a brand-new function over the documented effective
     method set of that class -/
@@ -54,6 +67,20 @@ theorem C17_call (cfg : Cfg) (ks : List ClassDecl) (hwf : WF ks) (i n : Nat) (fl
     (hd : DistinctHandlers (Fn.methsOf e.defns)) (c : Call) :
     ((graphOf cfg ks).call cfg n c).2.1 = Fn.outcome ((Fn.fresh e.defns).call cfg c) ∧
     ((graphOf cfg ks).call cfg n c).2.2.1 = Fn.trace ((Fn.fresh e.defns).call cfg c) := by
-  sorry
+  obtain ⟨a, hs, hag, _, _⟩ := mainInv cfg ks
+  obtain ⟨_, h2, h3, _⟩ := snap_graph cfg hs
+  obtain ⟨e', he', hr⟩ := hag.get i _ h
+  rw [he] at he'
+  cases he'
+  unfold graphOf
+  have hdef : (Graph.runOps cfg {} (translate ks).ops).defns (Graph.runOps cfg {} (translate ks).ops).depth n =
+      e.defns := hr.2.2.2
+  have hn : n < (Graph.runOps cfg {} (translate ks).ops).nodes.length := by
+    have : (Graph.runOps cfg {} (translate ks).ops).len = a.len := congrArg AG.len h2
+    unfold Graph.len at this
+    rw [this]; exact hr.2.2.1
+  have := C08_call_as_fresh cfg (translate ks).ops h3 n hn (by unfold Graph.distinctAt; rw [hdef]; exact hd) c
+  rw [hdef] at this
+  exact this
 
 end Ovld.ClassBody
